@@ -401,8 +401,14 @@ class AutoSerialize:
         elif isinstance(value, (int, float, str, bool, type(None))):
             # Scalars saved as attributes
             group.attrs[name] = value
-        elif hasattr(value, "dtype") and hasattr(value, "item"):
+        elif (
+            hasattr(value, "dtype")
+            and hasattr(value, "item")
+            and isinstance(value.item(), (int, float, str, bool))
+        ):
             # Handle numpy scalar types (np.float32, np.int64, etc.)
+            # (scalars whose Python value is not JSON-representable, e.g. complex,
+            # take the generic fallback below)
             group.attrs[name] = value.item()
         elif hasattr(value, "__fspath__") or str(type(value)).startswith("<class 'pathlib."):
             # Handle pathlib.Path objects and other path-like objects
